@@ -85,8 +85,18 @@ func c06sequences(zero bool) [][]glyph.ID {
 // several runes).
 func c06input(a *otlmini.Alphabet, gids []glyph.ID, gpos, textShapes bool) []glyph.Info {
 	seq := make([]glyph.Info, len(gids))
+	// in a third of the inputs the texts are pieces of one array, as a caller
+	// gets them from []rune(s) (every piece has the rest in its capacity)
+	var shared []rune
+	if !textShapes && len(gids) > 0 && (len(gids)+int(gids[0]))%3 == 0 {
+		shared = make([]rune, len(gids))
+	}
 	for i, gid := range gids {
 		seq[i] = glyph.Info{GID: gid, Text: []rune{rune(0x100 + i)}}
+		if shared != nil {
+			shared[i] = rune(0x100 + i)
+			seq[i].Text = shared[i : i+1]
+		}
 		if textShapes {
 			switch i % 3 {
 			case 1:
@@ -104,8 +114,22 @@ func c06input(a *otlmini.Alphabet, gids []glyph.ID, gpos, textShapes bool) []gly
 
 func c06copy(seq []glyph.Info) []glyph.Info {
 	out := make([]glyph.Info, len(seq))
+	// texts that are pieces of one array (spare capacity behind them) are
+	// copied as pieces of one new array: the copy has the same shape
+	shared, total := false, 0
+	for _, g := range seq {
+		shared = shared || cap(g.Text) > len(g.Text)
+		total += len(g.Text)
+	}
+	buf := make([]rune, 0, total)
 	for i, g := range seq {
 		out[i] = g
+		if shared {
+			start := len(buf)
+			buf = append(buf, g.Text...)
+			out[i].Text = buf[start:len(buf):total]
+			continue
+		}
 		out[i].Text = append([]rune(nil), g.Text...)
 	}
 	return out
@@ -525,6 +549,8 @@ func runC06(c *mon.Ctx) {
 		k.Sample(map[string]any{"primary": kind.String(), "flags": fs.String(), "lookups": len(list.LL), "order": fmt.Sprint(list.Lookups),
 			"judged": st.judged, "undefined": st.undefined, "changed": st.changed})
 	})
+
+	c06filterStratum(c)
 
 	c.Stratum("random", c.N(15000, 350000), func(k *mon.Case) {
 		r := k.Rng
